@@ -346,6 +346,17 @@ def run(chk, w):
                     g = f.resolve(ld["ptr"])
                     if tags and g is not None and g.op == "getelementptr" and g["idx"]:
                         term_tests.append(t)
+                    elif tags and g is not None and g.op == "load" and g["ptr"].get("k") == "inst" and f.insts[g["ptr"]["id"]].op == "alloca" and \
+                            f.param_index_of_alloca(f.insts[g["ptr"]["id"]]) is None:
+                        # `while (*p != 0) p++`: the scan position is a running pointer stepped inside the loop
+                        pid = g["ptr"]["id"]
+                        for s_ in f.all_insts():
+                            if s_.op == "store" and s_.bb.id in body and s_["ptr"].get("k") == "inst" and s_["ptr"]["id"] == pid:
+                                v_ = f.resolve(rules.strip_casts(f, s_["val"]))
+                                b_ = f.resolve(rules.strip_casts(f, v_["base"])) if v_ is not None and v_.op == "getelementptr" else None
+                                if b_ is not None and b_.op == "load" and b_["ptr"].get("k") == "inst" and b_["ptr"]["id"] == pid:
+                                    term_tests.append(t)
+                                    break
                 elif cnd["pred"] in ("slt", "sle", "ult", "ule", "sgt", "sge", "ugt", "uge"):
                     bounded = True
             if term_tests:
